@@ -238,7 +238,55 @@ class StrongEtag:
         return {"failing": r.get("reproduced", False), "tried": r.get("tried"), **{k: v for k, v in r.items() if k in ("input", "expected", "observed")}}
 
 
+class TzAware:
+    """as_tz_aware_ts against its contract read natively: DATE -> midnight in the default zone,
+    floating -> wall clock in the default zone, zoned -> unchanged."""
+
+    def cases(self):
+        zones = [UTC, datetime.timezone(datetime.timedelta(hours=5)), datetime.timezone(datetime.timedelta(hours=-8))]
+        try:
+            from zoneinfo import ZoneInfo
+
+            zones.append(ZoneInfo("Europe/Amsterdam"))
+        except Exception:
+            pass
+        vals = [datetime.date(2024, 3, 31), datetime.date(2024, 1, 1), datetime.datetime(2024, 3, 31, 2, 30),
+                datetime.datetime(2024, 1, 1, 0, 0), datetime.datetime(2024, 6, 1, 12, 0, tzinfo=UTC),
+                datetime.datetime(2024, 6, 1, 12, 0, tzinfo=zones[1])]
+        return [(v, z) for v in vals for z in zones]
+
+    def check(self, v, z):
+        from xandikos.icalendar import as_tz_aware_ts
+
+        if not isinstance(v, datetime.datetime):
+            exp = datetime.datetime.combine(v, datetime.time()).replace(tzinfo=z)
+        elif v.tzinfo is None:
+            exp = v.replace(tzinfo=z)
+        else:
+            exp = v
+        got = as_tz_aware_ts(v, z)
+        if got != exp or got.tzinfo is None or got.utcoffset() != exp.utcoffset():
+            return {"input": {"dt": repr(v), "default_timezone": repr(z)}, "expected": repr(exp), "observed": repr(got)}
+        return None
+
+    def search(self, req):
+        n = 0
+        for v, z in self.cases():
+            n += 1
+            bad = self.check(v, z)
+            if bad:
+                return dict(bad, reproduced=True, tried=n)
+        return {"reproduced": False, "tried": n}
+
+    replay = search
+
+    def bounded(self, req):
+        r = self.search(req)
+        return {"failing": r.get("reproduced", False), "tried": r.get("tried"), **{k: v for k, v in r.items() if k in ("input", "expected", "observed")}}
+
+
 HANDLERS = {
+    "xandikos.icalendar.as_tz_aware_ts": TzAware(),
     "xandikos.icalendar.apply_time_range_vevent": TimeRange("vevent"),
     "xandikos.icalendar.apply_time_range_vtodo": TimeRange("vtodo"),
     "xandikos.icalendar.apply_time_range_vjournal": TimeRange("vjournal"),
